@@ -177,12 +177,12 @@ func (v *view) matchPrefix(prop string, dir string, recvs, sends []*Event) (matc
 				clause := dir + "-wrong-or-missing-message"
 				if v.mutatedBefore(rv, sd) {
 					clause = dir + "-sees-later-mutation"
-					v.fail("C06", clause, "%s receive #%d (seq %d..%d) got %s, which is not the message handed over by send #%d (tag %d) but reflects the sender's later mutation", dir, i, rv.Seq, rv.RSeq, rv.Got, j-1, sd.Msg.Tag)
+					v.fail("C06", clause, "%s receive #%d (seq %d..%d) got %s, which is not the message handed over by send #%d (tag %d) but reflects the sender's later mutation", dir, i, rv.Seq, rv.RSeq, rv.Got, j-1, tagOf(sd.Msg))
 				}
 				if rv.Flags["junkdst"] == "1" && v.r.Transport == TInproc {
-					v.fail("C06", dir+"-merged-into-destination", "%s receive #%d into a pre-filled destination got %s, not equal to the message sent (tag %d)", dir, i, rv.Got, sd.Msg.Tag)
+					v.fail("C06", dir+"-merged-into-destination", "%s receive #%d into a pre-filled destination got %s, not equal to the message sent (tag %d)", dir, i, rv.Got, tagOf(sd.Msg))
 				}
-				v.fail(prop, clause, "%s receive #%d (seq %d..%d) got %s, expected the message of send #%d (tag %d, %s); received sequence is not a prefix of the sent sequence", dir, i, rv.Seq, rv.RSeq, rv.Got, j-1, sd.Msg.Tag, digestMsg(sd.Msg.Build()))
+				v.fail(prop, clause, "%s receive #%d (seq %d..%d) got %s, expected the message of send #%d (tag %d, %s); received sequence is not a prefix of the sent sequence", dir, i, rv.Seq, rv.RSeq, rv.Got, j-1, tagOf(sd.Msg), digestMsg(sd.Msg.Build()))
 				return matched
 			}
 		}
@@ -203,6 +203,13 @@ func (v *view) mutatedBefore(rv, sd *Event) bool {
 		}
 	}
 	return false
+}
+
+func tagOf(m *MsgSpec) uint32 {
+	if m == nil {
+		return 0
+	}
+	return m.Tag
 }
 
 func countOK(evs []*Event, beforeSeq int) int {
@@ -284,7 +291,7 @@ func (v *view) oracleC01() {
 				if v.mutatedBefore(rv, v.invoke) {
 					v.fail("C06", "c2h-sees-later-mutation", "handler decoded %s at seq %d, not the request handed to Invoke but its later mutation", rv.Got, rv.RSeq)
 				}
-				v.fail("C01", "c2h-wrong-or-missing-message", "handler decoded %s, not equal to the request sent (tag %d, %s)", rv.Got, v.invoke.Msg.Tag, digestMsg(v.invoke.Msg.Build()))
+				v.fail("C01", "c2h-wrong-or-missing-message", "handler decoded %s, not equal to the request sent (tag %d, %s)", rv.Got, tagOf(v.invoke.Msg), digestMsg(v.invoke.Msg.Build()))
 			}
 		}
 		if v.invoke != nil && v.invoke.RSeq != 0 && v.invoke.Err.IsNil() {
@@ -294,7 +301,7 @@ func (v *view) oracleC01() {
 				if v.invoke.Flags["junkdst"] == "1" && v.r.Transport == TInproc {
 					v.fail("C06", "h2c-merged-into-destination", "Invoke into a pre-filled response got %s, not equal to the handler's response", v.invoke.Got)
 				}
-				v.fail("C01", "h2c-wrong-or-missing-message", "Invoke returned response %s, not equal to the handler's response (tag %d, %s)", v.invoke.Got, v.hSend[0].Msg.Tag, digestMsg(v.hSend[0].Msg.Build()))
+				v.fail("C01", "h2c-wrong-or-missing-message", "Invoke returned response %s, not equal to the handler's response (tag %d, %s)", v.invoke.Got, tagOf(v.hSend[0].Msg), digestMsg(v.hSend[0].Msg.Build()))
 			}
 		}
 		return
@@ -683,6 +690,16 @@ func (v *view) oracleC03() {
 		return
 	}
 	expH, expT := v.expectedHeaders(), v.expectedTrailers()
+	for _, ev := range v.ev {
+		if ev.Side != 'c' {
+			continue
+		}
+		for _, md := range append(append([]metadata.MD{ev.MD, ev.MD2}, ev.OptH...), ev.OptT...) {
+			if _, bad := md["scribbled-key"]; bad {
+				v.fail("C03", "later-mutation-of-handler-metadata-visible", "%s at seq %d shows a key the handler added to its metadata object only after handing it to the library", ev.Op, ev.Seq)
+			}
+		}
+	}
 	if len(expH)+len(expT)+len(v.expectedIncoming()) > 0 {
 		v.relevant("C03")
 	}
